@@ -46,7 +46,8 @@ KINDS = {"Box": 0, "Swap": 1, "Cup": 2, "Cap": 3}
 
 
 def proj_box(box, names):
-    return {"id": box_id(box, names), "kind": KINDS.get(type(box).__name__, 0),
+    kind = KINDS.get(type(box).__name__, 0)
+    return {"id": box_id(box, names) if kind == 0 else 0, "kind": kind,
             "dom": proj_ty(box.dom, names), "cod": proj_ty(box.cod, names),
             "dg": int(bool(getattr(box, "_dagger", False)))}
 
